@@ -226,7 +226,7 @@ Qed.
 Lemma In_middle P xs ys k j s :
   (j <= length ys)%nat -> In (eplus (fwd_val P xs ys k j s) (bwd_val P xs ys k j s)) (middle P xs ys k).
 Proof.
-  intros Hj. unfold middle. apply in_flat_map. exists j. split.
+  intros Hj. unfold middle. cbv zeta. apply in_flat_map. exists j. split.
   - apply in_seq. lia.
   - apply in_map_iff. exists s. split; [reflexivity | apply all_states].
 Qed.
@@ -240,7 +240,7 @@ Proof.
   - (* no middle entry exceeds the optimum *)
     destruct (emaxl (middle P xs ys k)) as [v|] eqn:E; [|exact I].
     destruct Hin as [Hin | Hin]; [discriminate|].
-    unfold middle in Hin. apply in_flat_map in Hin. destruct Hin as (j & Hj & Hin).
+    unfold middle in Hin. cbv zeta in Hin. apply in_flat_map in Hin. destruct Hin as (j & Hj & Hin).
     apply in_seq in Hj. apply in_map_iff in Hin. destruct Hin as (s & Hs & _).
     destruct (middle_entry_path P xs ys k j s v Hk ltac:(lia) Hs) as (q0 & p2 & r0 & _ & _ & G).
     rewrite <- G. apply global_alignment_optimal.
